@@ -329,8 +329,8 @@ func zvdSortedCerts(u *zvdUniverse) []string {
 
 // zvdNewInst builds a fresh daemon whose underlying agent holds the identities `under`.
 // force: "key:<id>" -> key kind, "<cert>" -> "window/keyid class" are not re-forced (windows are relative to now); only key kinds are.
-func zvdNewInst(u *zvdUniverse, under []string, fv []string, hasTick bool, rnd *mrand.Rand, force map[string]string) (in *zvdInst, err error) {
-	in = &zvdInst{u: u, rnd: rnd, keys: map[string]*verifh.KeyPair{}, certs: map[string]*ssh.Certificate{}, byBlob: map[string]string{},
+func zvdNewInst(u *zvdUniverse, under []string, fv []string, hasTick bool, rnd *mrand.Rand, force map[string]string) (ret *zvdInst, err error) {
+	in := &zvdInst{u: u, rnd: rnd, keys: map[string]*verifh.KeyPair{}, certs: map[string]*ssh.Certificate{}, byBlob: map[string]string{},
 		byHash: map[[32]byte]string{}, classes: map[string]string{}, conns: map[int]*zvdConn{}, kinds: map[int]string{}, fv: zvdSet(fv), hasTick: hasTick}
 	now0 := time.Now().Unix()
 	if hasTick {
@@ -535,7 +535,16 @@ func (in *zvdInst) close() {
 	}
 	if in.srv != nil && !in.wedged {
 		done := make(chan struct{})
-		go func() { in.srv.Close(); close(done) }()
+		go func() {
+			// Close refuses while the shim is locked: unlock first (teardown only, nothing is recorded any more)
+			for _, p := range in.u.Pass {
+				if in.srv.Unlock([]byte(p)) == nil {
+					break
+				}
+			}
+			in.srv.Close()
+			close(done)
+		}()
 		select {
 		case <-done:
 		case <-time.After(5 * time.Second):
@@ -557,7 +566,7 @@ func (in *zvdInst) close() {
 
 // zvdShimPeek reads the in-memory certificate table and the lock flag off the real shim server (unexported fields of
 // another package: by name, through reflection).
-func zvdShimPeek(sh *shimagent.Server) (mem [][32]byte, locked bool, err error) {
+func zvdShimPeek(sh *shimagent.Server) (mem [][32]byte, locked bool, dead bool, err error) {
 	defer func() {
 		if r := recover(); r != nil {
 			err = fmt.Errorf("cannot read the shim server's fields: %v", r)
@@ -566,14 +575,14 @@ func zvdShimPeek(sh *shimagent.Server) (mem [][32]byte, locked bool, err error) 
 	v := reflect.ValueOf(sh).Elem()
 	f := v.FieldByName("certs")
 	if !f.IsValid() || f.Kind() != reflect.Map {
-		return nil, false, errors.New("shimagent.Server has no map field certs")
+		return nil, false, false, errors.New("shimagent.Server has no map field certs")
 	}
 	f = reflect.NewAt(f.Type(), unsafe.Pointer(f.UnsafeAddr())).Elem()
 	it := f.MapRange()
 	for it.Next() {
 		k := it.Key()
 		if k.Kind() != reflect.Array || k.Len() != 32 {
-			return nil, false, errors.New("certs is not keyed by a 32-byte array")
+			return nil, false, false, errors.New("certs is not keyed by a 32-byte array")
 		}
 		var h [32]byte
 		for i := 0; i < 32; i++ {
@@ -583,10 +592,18 @@ func zvdShimPeek(sh *shimagent.Server) (mem [][32]byte, locked bool, err error) 
 	}
 	lf := v.FieldByName("locked")
 	if !lf.IsValid() || lf.Kind() != reflect.Bool {
-		return nil, false, errors.New("shimagent.Server has no bool field locked")
+		return nil, false, false, errors.New("shimagent.Server has no bool field locked")
 	}
 	locked = reflect.NewAt(lf.Type(), unsafe.Pointer(lf.UnsafeAddr())).Elem().Bool()
-	return mem, locked, nil
+	// is the single upstream connection still open?  (a write of zero bytes puts nothing on the wire and fails on a closed one)
+	if cf := v.FieldByName("conn"); cf.IsValid() && cf.Kind() == reflect.Interface {
+		if w, ok := reflect.NewAt(cf.Type(), unsafe.Pointer(cf.UnsafeAddr())).Elem().Interface().(io.Writer); ok && w != nil {
+			if _, werr := w.Write([]byte{}); werr != nil {
+				dead = true
+			}
+		}
+	}
+	return mem, locked, dead, nil
 }
 
 // connStates reads the state of every connection off the handlers (only meaningful when settled).
@@ -697,7 +714,7 @@ func (in *zvdInst) project() zvdState {
 			}
 		}
 	}
-	mem, locked, err := zvdShimPeek(in.shim)
+	mem, locked, dead, err := zvdShimPeek(in.shim)
 	if err != nil {
 		in.fail("%v", err)
 	}
@@ -708,7 +725,7 @@ func (in *zvdInst) project() zvdState {
 			st.M = append(st.M, "?"+hex.EncodeToString(h[:4]))
 		}
 	}
-	st.L = locked
+	st.L, st.D = locked, dead
 	st.U, st.M = zvdSet(st.U), zvdSet(st.M)
 	st.K = in.connStates()
 	return st
